@@ -249,7 +249,7 @@ static VDFork verify_and_decrypt_forked(const Scn &s, const Bytes &F2, const uin
   pid_t pid = fork();
   if (pid == 0) {
     close(pfd[0]);
-    alarm(20);
+    arm_watchdog(20);
     g_ctx.hang_cb = [](int, const char *) { _exit(14); };
     VD r = verify_and_decrypt(s, F2, key, T, HANG_VIOLATION);
     uint8_t hdr[3] = {(uint8_t)r.vret, (uint8_t)r.dret, (uint8_t)r.cap_hit};
@@ -261,6 +261,7 @@ static VDFork verify_and_decrypt_forked(const Scn &s, const Bytes &F2, const uin
     _exit(0);
   }
   close(pfd[1]);
+  ChildWait child_wait;
   std::string buf;
   char tmp[65536];
   ssize_t n;
